@@ -29,11 +29,24 @@ def guard_of(stmt, mutexes):
     return out
 
 
-def count_unguarded(body, member, mutex, mutexes):
+def scan(body, member, mutex, mutexes, fnames):
+    """(number of accesses to `member` outside a guard on `mutex`, does the body hold a guard on `mutex` anywhere,
+        names of member functions called outside a guard)"""
     n = [0]
+    has_guard = [False]
+    calls = []
 
     def is_access(x):
         return x.get('kind') in ('MemberExpr', 'CXXDependentScopeMemberExpr') and member_name(x) == member
+
+    def callee(x):
+        if x.get('kind') in ('MemberExpr', 'CXXDependentScopeMemberExpr'):
+            nm = member_name(x)
+        elif x.get('kind') in ('UnresolvedMemberExpr', 'UnresolvedLookupExpr'):
+            nm = x.get('name')
+        else:
+            nm = None
+        return nm if nm in fnames and nm != member else None
 
     def rec(node, guarded):
         k = node.get('kind')
@@ -47,23 +60,30 @@ def count_unguarded(body, member, mutex, mutexes):
                 if mutex in guard_of(c, mutexes):
                     # the initialiser of the guard itself is evaluated before the lock is held
                     g = True
+                    has_guard[0] = True
                     continue
                 rec(c, g)
             return
-        if is_access(node) and not guarded:
-            n[0] += 1
+        if not guarded:
+            if is_access(node):
+                n[0] += 1
+            c = callee(node)
+            if c:
+                calls.append(c)
         for c in kids(node):
             rec(c, guarded)
     rec(body, False)
-    return n[0]
+    return n[0], has_guard[0], calls
 
 
 def class_functions(trees, cls):
-    """(name, body) of every member function defined inside class template `cls` (and nested classes)"""
+    """(name, declaration, body, is_public) of every member function defined inside class template `cls` (and nested
+    classes; members of nested classes and lambdas count as not public)"""
     out, seen = [], set()
 
-    def rec(n, inside):
-        if n.get('name') == cls and (n.get('kind', '').startswith('ClassTemplate') or n.get('kind') == 'CXXRecordDecl'):
+    def rec(n, inside, public):
+        here = n.get('name') == cls and (n.get('kind', '').startswith('ClassTemplate') or n.get('kind') == 'CXXRecordDecl')
+        if here:
             inside = True
         if inside and n.get('kind') in FUNCS:
             body = [c for c in kids(n) if c.get('kind') == 'CompoundStmt']
@@ -75,30 +95,75 @@ def class_functions(trees, cls):
                     nm = 'constructor'
                 if n.get('kind') == 'CXXDestructorDecl':
                     nm = 'destructor'
-                out.append((nm, n, body[0]))
+                out.append((nm, n, body[0], public))
+        if n.get('kind') in ('CXXRecordDecl', 'ClassTemplatePartialSpecializationDecl', 'ClassTemplateSpecializationDecl') and inside:
+            # members in declaration order, with the access specifier in force
+            acc = (n.get('tagUsed') == 'struct') and here
+            for c in kids(n):
+                if c.get('kind') == 'AccessSpecDecl':
+                    acc = (c.get('access') == 'public') and here
+                    continue
+                rec(c, inside, acc)
+            return
         for c in kids(n):
-            rec(c, inside)
+            rec(c, inside, public)
     for t in trees:
-        rec(t, False)
+        rec(t, False, False)
     return out
 
 
 def unguarded(trees, cls, member, mutex, mutexes):
-    acc = {}
+    """The member functions in which `member` is reached outside a guard on `mutex`:
+         "f#*"  f never takes the mutex (constructors, assignment, swap, the deliberate unlocked reads);
+         "f#n"  f does take the mutex, and still reaches the member n times outside its guards.
+    A non-public member function that takes no lock itself and that other member functions call (a link helper such as
+    doAppend) is not listed itself: it runs under its caller's lock or not at all, so each call of it that is made outside a
+    guard counts as one access of the caller."""
     fns = class_functions(trees, cls)
     if not fns:
         raise Untranslatable('%s: no member functions found' % cls)
-    for nm, fn, body in fns:
+    fnames = set(nm for nm, _, _, _ in fns)
+    info = {}
+    for nm, fn, body, public in fns:
         # constructors: the mem-initialiser list counts too
         extra = 0
         if fn.get('kind') == 'CXXConstructorDecl':
             for c in kids(fn):
                 if c.get('kind') == 'CXXCtorInitializer':
                     extra += sum(1 for x in walk(c) if x.get('kind') in ('MemberExpr', 'CXXDependentScopeMemberExpr') and member_name(x) == member)
-        k = count_unguarded(body, member, mutex, mutexes) + extra
-        if k:
-            acc[nm] = acc.get(nm, 0) + k
-    return sorted('%s#%d' % (a, b) for a, b in acc.items())
+        k, g, calls = scan(body, member, mutex, mutexes, fnames)
+        d = info.setdefault(nm, {'n': 0, 'guard': False, 'calls': [], 'public': False})
+        d['n'] += k + extra
+        d['guard'] = d['guard'] or g
+        d['calls'] += calls
+        d['public'] = d['public'] or public
+    called = set(c for nm, d in info.items() for c in d['calls'] if c != nm)
+    # also calls made under a guard make a function a helper: collect every callee name, guarded or not
+    for nm, fn, body, public in fns:
+        for x in walk(body):
+            c = member_name(x) if x.get('kind') in ('MemberExpr', 'CXXDependentScopeMemberExpr') else (x.get('name') if x.get('kind') in ('UnresolvedMemberExpr', 'UnresolvedLookupExpr') else None)
+            if c in fnames and c != nm and c != member:
+                called.add(c)
+    helpers = set(nm for nm, d in info.items() if not d['public'] and not d['guard'] and nm in called and nm not in ('constructor', 'destructor'))
+    # effective count: own unguarded accesses + one for each unguarded call of a helper that reaches the member
+    eff = {nm: d['n'] for nm, d in info.items()}
+    for _ in range(len(info) + 2):
+        changed = False
+        for nm, d in info.items():
+            v = d['n'] + sum(1 for c in d['calls'] if c in helpers and eff.get(c, 0) > 0)
+            if v != eff[nm]:
+                eff[nm] = v
+                changed = True
+        if not changed:
+            break
+    else:
+        raise Untranslatable('%s::%s: helper call graph does not settle' % (cls, member))
+    out = []
+    for nm, d in info.items():
+        if nm in helpers or eff[nm] == 0:
+            continue
+        out.append('%s#%s' % (nm, ('%d' % eff[nm]) if d['guard'] else '*'))
+    return sorted(out)
 
 
 SITES = [
@@ -109,10 +174,6 @@ SITES = [
     ('list_tail_unguarded', 'eventpp/callbacklist.h', 'CallbackListBase', 'tail', 'mutex', ('mutex',)),
     ('list_next_unguarded', 'eventpp/callbacklist.h', 'CallbackListBase', 'next', 'mutex', ('mutex',)),
     ('list_previous_unguarded', 'eventpp/callbacklist.h', 'CallbackListBase', 'previous', 'mutex', ('mutex',)),
-    # the private helpers that touch the links are entered with the caller's lock held: calls to them outside a guard
-    ('list_doappend_calls_unguarded', 'eventpp/callbacklist.h', 'CallbackListBase', 'doAppend', 'mutex', ('mutex',)),
-    ('list_doinsert_calls_unguarded', 'eventpp/callbacklist.h', 'CallbackListBase', 'doInsert', 'mutex', ('mutex',)),
-    ('list_dofreenode_calls_unguarded', 'eventpp/callbacklist.h', 'CallbackListBase', 'doFreeNode', 'mutex', ('mutex',)),
     ('queue_list_unguarded', 'eventpp/eventqueue.h', 'EventQueueBase', 'queueList', 'queueListMutex', ('queueListMutex', 'freeListMutex')),
     ('queue_freelist_unguarded', 'eventpp/eventqueue.h', 'EventQueueBase', 'freeList', 'freeListMutex', ('queueListMutex', 'freeListMutex')),
     ('heter_queue_list_unguarded', 'eventpp/hetereventqueue.h', 'HeterEventQueueBase', 'queueList', 'queueListMutex', ('queueListMutex', 'freeListMutex')),
@@ -123,8 +184,9 @@ SITES = [
 def leaf_locks(out):
     cache = {}
     lines = ['(* GENERATED by tools/leafgen.py (tools/leaves/locks.py) — do not edit.',
-             '   For each guarded member: "function#n" = n accesses in that member function outside the scope of a named',
-             '   lock_guard/unique_lock on its mutex. *)',
+             '   For each guarded member, the member functions that reach it outside the scope of a named lock_guard/unique_lock on',
+             '   its mutex: "f#*" = f never takes the mutex; "f#n" = f takes it and still reaches the member n times outside its',
+             '   guards.  Non-public helpers called by other member functions are folded into their callers. *)',
              'From Coq Require Import String List.', 'Import ListNotations.', 'Local Open Scope string_scope.', '']
     for name, header, cls, member, mutex, mutexes in SITES:
         key = (header, cls)
